@@ -76,7 +76,10 @@ def unique_keys(draw, n):
 @st.composite
 def palettes(draw, k_max=4):
     k = draw(st.integers(1, k_max))
-    mode = draw(st.sampled_from(["common", "common", "all", "prefix"]))
+    mode = draw(st.sampled_from(["common", "common", "all", "prefix", "adjacent"]))
+    if mode == "adjacent":
+        z0 = draw(st.integers(1, 116))
+        return [z0, z0 + 1, z0 + 2][: max(2, min(k, 3))]
     if mode == "common":
         base = COMMON_Z
     elif mode == "prefix":
